@@ -65,6 +65,7 @@ type CallRec struct {
 	HandleVerAtStart int
 	StaleAtStart     bool
 	Retry            bool
+	AttemptsBefore   int
 	Done             bool
 	Events           int
 }
